@@ -1,6 +1,7 @@
 package verifsim
 
 import (
+	"bufio"
 	"bytes"
 	"encoding/base64"
 	"encoding/json"
@@ -14,8 +15,10 @@ import (
 
 	"github.com/cbeuw/Cloak/internal/common"
 	mux "github.com/cbeuw/Cloak/internal/multiplex"
+	"github.com/cbeuw/Cloak/internal/server"
 	"github.com/cbeuw/Cloak/internal/server/usermanager"
 	"github.com/cbeuw/Cloak/internal/simsync"
+	"github.com/cbeuw/Cloak/verifsim/simnet"
 )
 
 // ---- C18: user database and admin API act as a keyed store and never crash the server ----
@@ -35,6 +38,11 @@ type C18Scenario struct {
 	// followed by four more bytes, user 2's has 8 bytes (the API takes any length;
 	// only 16-byte UIDs can ever connect); 2 = user 1's UID is user 0's first 12 bytes
 	UIDShape int `json:"uid_shape,omitempty"`
+	// ViaTunnel: the admin client is the shipped ck-client main() started with
+	// -a <admin UID>; every API request travels as its own local TCP connection
+	// through a real admin session (session id 0) to the server's dispatcher,
+	// which serves the API with net/http on top of the multiplexed session
+	ViaTunnel bool `json:"via_tunnel,omitempty"`
 }
 
 var c18Fields = []string{"SessionsCap", "UpRate", "DownRate", "UpCredit", "DownCredit", "ExpiryTime"}
@@ -62,10 +70,13 @@ func c18Value(g *Gen, field int) int64 {
 }
 
 func genC18(g *Gen) any {
-	sc := &C18Scenario{Seed: g.Rng.Uint64(), UIDShape: g.Pick(0, 0, 0, 1, 2)}
+	sc := &C18Scenario{Seed: g.Rng.Uint64(), UIDShape: g.Pick(0, 0, 0, 1, 2), ViaTunnel: g.Bool(0.2)}
 	n := g.Int(1, 40)
 	if g.Tier == "thorough" {
 		n = g.Int(1, 400)
+	}
+	if sc.ViaTunnel {
+		n = g.Int(1, 12) // every operation is followed by four reads, each a proxied connection
 	}
 	kinds := []string{"post", "post", "post", "post", "get", "get", "list", "delete", "reopen", "badjson", "mismatch", "badb64", "direct-write", "direct-delete"}
 	for i := 0; i < n; i++ {
@@ -158,6 +169,46 @@ func runC18(c *Ctx, scAny any) {
 		rec := httptest.NewRecorder()
 		router.ServeHTTP(rec, req)
 		return rec
+	}
+	if sc.ViaTunnel {
+		simsync.Go("h:serve", func() { server.Serve(w.Front, w.Sta) })
+		prog := w.StartCkClient(c, ClientParams{UID: randBytes(c.Rng, 16), Method: "shadowsocks", Encryption: []string{"plain", "aes-gcm", "aes-128-gcm", "chacha20-poly1305"}[sc.Seed%4],
+			Browser: []string{"chrome", "firefox", "safari"}[(sc.Seed>>4)%3], Transport: "direct", NumConn: int(sc.Seed>>8) % 5, ServerName: "www.bing.com"}, "-a", b64(w.Admin))
+		do = func(method, path string, body []byte) *httptest.ResponseRecorder {
+			rec := httptest.NewRecorder()
+			prog.AwaitReady()
+			if prog.Exit != "" {
+				rec.Code = 597
+				rec.Body.WriteString("ck-client exited: " + prog.Exit)
+				return rec
+			}
+			d := &simnet.Dialer{Net: c.Net, LocalIP: "10.0.7.2", Tag: "app"}
+			conn, err := d.Dial("tcp", prog.LocalAddr)
+			if err != nil {
+				rec.Code = 599
+				rec.Body.WriteString(err.Error())
+				return rec
+			}
+			defer conn.Close()
+			req := fmt.Sprintf("%s %s HTTP/1.1\r\nHost: admin\r\nConnection: close\r\nContent-Length: %d\r\n\r\n", method, path, len(body))
+			if _, err := conn.Write(append([]byte(req), body...)); err != nil {
+				rec.Code = 598
+				rec.Body.WriteString(err.Error())
+				return rec
+			}
+			conn.SetReadDeadline(time.Now().Add(2 * time.Minute))
+			resp, err := http.ReadResponse(bufio.NewReader(conn), nil)
+			if err != nil {
+				rec.Code = 598
+				rec.Body.WriteString("no response through the admin session: " + err.Error())
+				return rec
+			}
+			b, _ := io.ReadAll(resp.Body)
+			rec.Code = resp.StatusCode
+			rec.Body = bytes.NewBuffer(b)
+			c.Probe("api_request_through_admin_session")
+			return rec
+		}
 	}
 	upath := func(u int) string { return "/admin/users/" + base64.URLEncoding.EncodeToString(uids[u]) }
 	apply := func(u int, op C18Op) {
@@ -307,6 +358,9 @@ func runC18(c *Ctx, scAny any) {
 					return
 				}
 			case "reopen":
+				if sc.ViaTunnel {
+					break // the admin session serves the manager it was started with
+				}
 				if cl, ok := mgr.(io.Closer); ok {
 					cl.Close()
 				}
@@ -336,7 +390,7 @@ func runC18(c *Ctx, scAny any) {
 
 func init() {
 	register(&Family{Name: "c18-kv", Count: func(tier string) int { return map[string]int{"quick": 1500, "thorough": 30000}[tier] },
-		Gen: genC18, New: func() any { return &C18Scenario{} }, Run: runC18, VirtCap: 3 * time.Hour,
+		Gen: genC18, New: func() any { return &C18Scenario{} }, Run: runC18, VirtCap: 3 * time.Hour, MaxSteps: 4000000,
 		Policy: func(g *Gen) simsync.PolicyConfig { return simsync.PolicyConfig{Kind: "rtb", NetOrder: "fifo"} }})
 	plans["C18"] = []string{"c18-kv"}
 }
